@@ -88,6 +88,10 @@ func mustWrite(path, content string) {
 }
 
 func newEnv(tmp string) *env {
+	tmp = filepath.Join(tmp, fmt.Sprintf("env-%d", os.Getpid()))
+	if err := os.MkdirAll(tmp, 0o700); err != nil {
+		fatalf("environment: %v", err)
+	}
 	e := &env{log: zap.NewNop(), tmp: tmp, seenTCP: map[string]struct{}{}, seenUDP: map[string]struct{}{}}
 
 	// domain set / prefix set files (every matcher representation)
@@ -114,39 +118,7 @@ func newEnv(tmp string) *env {
 	resolvers := []dns.SimpleResolver{fakeResolver{}}
 	resolverMap := map[string]dns.SimpleResolver{"fake": fakeResolver{}}
 	servers := map[string]int{"s0": 0, "s1": 1}
-	v4 := netip.MustParsePrefix("10.0.0.0/8")
-	v6 := netip.MustParsePrefix("2001:db8::/32")
-	zero4 := netip.MustParsePrefix("0.0.0.0/32")
-	inline17 := func() []string {
-		var s []string
-		for i := 0; i < 17; i++ {
-			s = append(s, fmt.Sprintf("h%d.example.com", i))
-		}
-		return append(s, "a")
-	}()
-	routes := []struct {
-		desc string
-		rc   router.RouteConfig
-	}{
-		{"single destination port", router.RouteConfig{Name: "dest-port-single", Client: "c", ToPorts: []uint16{443}}},
-		{"2 destination port ranges (range set)", router.RouteConfig{Name: "dest-port-ranges", Client: "c", ToPortRanges: "1-1023,8000-8999"}},
-		{"16 destination port ranges (largest range set)", router.RouteConfig{Name: "dest-port-16-ranges", Client: "c", ToPorts: oddPorts(16)}},
-		{"17 destination port ranges (bit set)", router.RouteConfig{Name: "dest-port-bitset", Client: "c", ToPorts: oddPorts(17)}},
-		{"17 destination port ranges, inverted (bit set)", router.RouteConfig{Name: "dest-port-bitset-inverted", Client: "c", ToPorts: oddPorts(17), InvertToPorts: true}},
-		{"single source port", router.RouteConfig{Name: "src-port-single", Client: "c", FromPorts: []uint16{40000}}},
-		{"2 source port ranges (range set)", router.RouteConfig{Name: "src-port-ranges", Client: "c", FromPortRanges: "1-1023,40000-40010"}},
-		{"17 source port ranges (bit set)", router.RouteConfig{Name: "src-port-bitset", Client: "c", FromPorts: oddPorts(17)}},
-		{"3 inline domains (linear matcher)", router.RouteConfig{Name: "dest-domain-inline", Client: "reject", ToDomains: []string{"example.com", "a", "aa"}}},
-		{"18 inline domains (map matcher)", router.RouteConfig{Name: "dest-domain-inline-map", Client: "c", ToDomains: inline17}},
-		{"domain set file below thresholds + keyword + regexp", router.RouteConfig{Name: "dest-domainset-small", Client: "c", ToDomainSets: []string{"small"}}},
-		{"domain set file above thresholds (map + suffix trie), inverted", router.RouteConfig{Name: "dest-domainset-big", Client: "c", ToDomainSets: []string{"big"}, InvertToDomains: true}},
-		{"destination prefixes with name resolution", router.RouteConfig{Name: "dest-prefix-resolved", Client: "c", ToPrefixes: []netip.Prefix{v4, v6, zero4}}},
-		{"destination prefixes without name resolution", router.RouteConfig{Name: "dest-prefix-plain", Client: "c", ToPrefixes: []netip.Prefix{v4, v6, zero4}, DisableNameResolutionForIPRules: true}},
-		{"destination prefix set file, inverted", router.RouteConfig{Name: "dest-prefixset", Client: "c", ToPrefixSets: []string{"pfx"}, InvertToPrefixes: true, Resolver: "fake"}},
-		{"matched domain must resolve into prefixes", router.RouteConfig{Name: "dest-domain-expected-prefix", Client: "c", ToDomainSets: []string{"small", "big"}, ToMatchedDomainExpectedPrefixes: []netip.Prefix{v4}, ToMatchedDomainExpectedPrefixSets: []string{"pfx"}}},
-		{"source prefixes + users + servers, tcp only", router.RouteConfig{Name: "src-misc-tcp", Network: "tcp", Client: "c", FromPrefixes: []netip.Prefix{netip.MustParsePrefix("127.0.0.0/8")}, FromPrefixSets: []string{"pfx"}, FromUsers: []string{"alice"}, InvertFromUsers: true, FromServers: []string{"s0"}}},
-		{"udp only, domain or prefix", router.RouteConfig{Name: "mixed-udp", Network: "udp", Client: "c", ToDomains: []string{"a"}, ToPrefixes: []netip.Prefix{v4}, ToPortRanges: "1-65534"}},
-	}
+	routes := routeTable()
 	for _, rt := range routes {
 		cfg := router.Config{
 			DefaultTCPClientName: "d",
@@ -332,4 +304,50 @@ func (w *worker) protectRoute(nr *namedRouter, info router.RequestInfo, udp bool
 		}
 	}()
 	f()
+}
+
+type routeEntry struct {
+	desc string
+	rc   router.RouteConfig
+}
+
+func routeTable() []routeEntry {
+	v4 := netip.MustParsePrefix("10.0.0.0/8")
+	v6 := netip.MustParsePrefix("2001:db8::/32")
+	zero4 := netip.MustParsePrefix("0.0.0.0/32")
+	inline17 := func() []string {
+		var s []string
+		for i := 0; i < 17; i++ {
+			s = append(s, fmt.Sprintf("h%d.example.com", i))
+		}
+		return append(s, "a")
+	}()
+	return []routeEntry{
+		{"single destination port", router.RouteConfig{Name: "dest-port-single", Client: "c", ToPorts: []uint16{443}}},
+		{"2 destination port ranges (range set)", router.RouteConfig{Name: "dest-port-ranges", Client: "c", ToPortRanges: "1-1023,8000-8999"}},
+		{"16 destination port ranges (largest range set)", router.RouteConfig{Name: "dest-port-16-ranges", Client: "c", ToPorts: oddPorts(16)}},
+		{"17 destination port ranges (bit set)", router.RouteConfig{Name: "dest-port-bitset", Client: "c", ToPorts: oddPorts(17)}},
+		{"17 destination port ranges, inverted (bit set)", router.RouteConfig{Name: "dest-port-bitset-inverted", Client: "c", ToPorts: oddPorts(17), InvertToPorts: true}},
+		{"single source port", router.RouteConfig{Name: "src-port-single", Client: "c", FromPorts: []uint16{40000}}},
+		{"2 source port ranges (range set)", router.RouteConfig{Name: "src-port-ranges", Client: "c", FromPortRanges: "1-1023,40000-40010"}},
+		{"17 source port ranges (bit set)", router.RouteConfig{Name: "src-port-bitset", Client: "c", FromPorts: oddPorts(17)}},
+		{"3 inline domains (linear matcher)", router.RouteConfig{Name: "dest-domain-inline", Client: "reject", ToDomains: []string{"example.com", "a", "aa"}}},
+		{"18 inline domains (map matcher)", router.RouteConfig{Name: "dest-domain-inline-map", Client: "c", ToDomains: inline17}},
+		{"domain set file below thresholds + keyword + regexp", router.RouteConfig{Name: "dest-domainset-small", Client: "c", ToDomainSets: []string{"small"}}},
+		{"domain set file above thresholds (map + suffix trie), inverted", router.RouteConfig{Name: "dest-domainset-big", Client: "c", ToDomainSets: []string{"big"}, InvertToDomains: true}},
+		{"destination prefixes with name resolution", router.RouteConfig{Name: "dest-prefix-resolved", Client: "c", ToPrefixes: []netip.Prefix{v4, v6, zero4}}},
+		{"destination prefixes without name resolution", router.RouteConfig{Name: "dest-prefix-plain", Client: "c", ToPrefixes: []netip.Prefix{v4, v6, zero4}, DisableNameResolutionForIPRules: true}},
+		{"destination prefix set file, inverted", router.RouteConfig{Name: "dest-prefixset", Client: "c", ToPrefixSets: []string{"pfx"}, InvertToPrefixes: true, Resolver: "fake"}},
+		{"matched domain must resolve into prefixes", router.RouteConfig{Name: "dest-domain-expected-prefix", Client: "c", ToDomainSets: []string{"small", "big"}, ToMatchedDomainExpectedPrefixes: []netip.Prefix{v4}, ToMatchedDomainExpectedPrefixSets: []string{"pfx"}}},
+		{"source prefixes + users + servers, tcp only", router.RouteConfig{Name: "src-misc-tcp", Network: "tcp", Client: "c", FromPrefixes: []netip.Prefix{netip.MustParsePrefix("127.0.0.0/8")}, FromPrefixSets: []string{"pfx"}, FromUsers: []string{"alice"}, InvertFromUsers: true, FromServers: []string{"s0"}}},
+		{"udp only, domain or prefix", router.RouteConfig{Name: "mixed-udp", Network: "udp", Client: "c", ToDomains: []string{"a"}, ToPrefixes: []netip.Prefix{v4}, ToPortRanges: "1-65534"}},
+	}
+}
+
+func routerDescriptions() []string {
+	var out []string
+	for _, r := range routeTable() {
+		out = append(out, r.rc.Name+": "+r.desc)
+	}
+	return out
 }
